@@ -440,7 +440,7 @@ def rule_B2(ctx, prog, label, only_funcs=None, rule='B2'):
                     problems.append('trip counter is %s, expected %s' % (got, want))
             rr.ob(not problems, dict(function=f.name, switch=pp(dc), M=M),
                   Finding(rule, '%s|%s|%s' % (rule, f.name, pp(dc)), sw.loc, f.name, 'Duff device on `%s`: %s' % (pp(dc), '; '.join(problems)), {}, label))
-    rr.require_floor(8, "Duff's devices")
+    rr.require_floor(8 if only_funcs is None else 1, "Duff's devices")
     return rr
 
 
@@ -738,4 +738,92 @@ def rule_B2c(ctx, prog, label, rule='B2c'):
             rr.ob(ok, dict(function=name, counter=wname),
                   Finding(rule, '%s|%s|%s' % (rule, name, wname), k.loc, name,
                           'the unrolled kernel in %s is no longer guarded by a test of `%s` against zero: with a zero word count the scalar kernels still xor a full unit (8 words) past the row' % (name, wname), {}, label))
+    return rr
+
+
+# ---------------------------------------------------------------------------------------------- B8
+PERIODIC_GROUPS = [
+    # (function, first callee of the group, period, number of groups, reason)
+    ('mzd_trtri_upper_russian', '_mzd_trtri_upper_submatrix', 3, 4,
+     'table j of the in-place triangular inversion is built from the k x k diagonal block at r + j*k, into U[j] / T[j]'),
+]
+
+
+def rule_B8(ctx, prog, label, rule='B8'):
+    """periodic call groups: consecutive groups of p calls (same callees) whose arguments, as linear forms, are affine in the
+    group index (constant difference between consecutive groups) and whose constant array subscripts are affine too."""
+    from .symbolic import FuncSym, Lin
+    rr = RuleResult(rule, 'periodic call groups: every argument of group j equals the argument of group 0 plus j times one constant step (linear forms; array subscripts likewise)')
+    for (fname, first, p, m, reason) in PERIODIC_GROUPS:
+        f = prog.funcs.get(fname)
+        if f is None or f.body is None:
+            raise AnalysisBroken('B8: %s vanished' % fname)
+        fs = FuncSym(f)
+        found = False
+        for cs in f.body.find('CompoundStmt'):
+            seq = []
+            for s in cs.kids:
+                e = strip(s)
+                seq.append(e if (e is not None and e.kind == 'CallExpr') else None)
+            for i in range(len(seq)):
+                if seq[i] is None or callee_name(seq[i]) != first:
+                    continue
+                if i > 0 and i >= p and seq[i - p] is not None and callee_name(seq[i - p]) == first:
+                    continue     # not the first group
+                # collect groups
+                groups = []
+                j = i
+                names0 = None
+                while j + p <= len(seq) and all(seq[j + t] is not None for t in range(p)):
+                    names = [callee_name(seq[j + t]) for t in range(p)]
+                    if names0 is None:
+                        names0 = names
+                    if names != names0:
+                        break
+                    groups.append([seq[j + t] for t in range(p)])
+                    j += p
+                if len(groups) < 2:
+                    continue
+                found = True
+                rr.instances += 1
+                probs = []
+                if len(groups) != m:
+                    probs.append('%d groups found, %d confirmed by reading' % (len(groups), m))
+
+                def val(a):
+                    a0 = strip(a, casts=True)
+                    if a0.kind == 'ArraySubscriptExpr' and int_value(a0.kids[1]) is not None:
+                        return ('idx', pp(strip(a0.kids[0], casts=True)), int_value(a0.kids[1]))
+                    t = (a0.type or '')
+                    if '*' in t or '[' in t:
+                        return ('ptr', pp(a0))
+                    return ('lin', fs.sym(a0))
+                for t in range(p):
+                    nargs = len(groups[0][t].kids) - 1
+                    for ai in range(nargs):
+                        vals = [val(g[t].kids[1 + ai]) for g in groups]
+                        kinds = set(v[0] for v in vals)
+                        if len(kinds) != 1:
+                            probs.append('argument %d of %s changes kind across the groups' % (ai + 1, names0[t]))
+                            continue
+                        kd = vals[0][0]
+                        if kd == 'ptr':
+                            if len(set(v[1] for v in vals)) != 1:
+                                probs.append('argument %d of %s: %s' % (ai + 1, names0[t], [v[1] for v in vals]))
+                        elif kd == 'idx':
+                            if len(set(v[1] for v in vals)) != 1:
+                                probs.append('argument %d of %s indexes different arrays: %s' % (ai + 1, names0[t], sorted(set(v[1] for v in vals))))
+                            d = [vals[x + 1][2] - vals[x][2] for x in range(len(vals) - 1)]
+                            if len(set(d)) != 1:
+                                probs.append('argument %d of %s: subscripts %s are not affine in the group index' % (ai + 1, names0[t], [v[2] for v in vals]))
+                        else:
+                            d = [vals[x + 1][1] - vals[x][1] for x in range(len(vals) - 1)]
+                            if any(not (dd == d[0]) for dd in d):
+                                probs.append('argument %d of %s: %s is not group 0 plus j times one step' % (ai + 1, names0[t], [repr(v[1]) for v in vals]))
+                # the steps of the index arguments and of the subscripts must agree in sign/unit: every 'idx' step equals 1 here
+                rr.ob(not probs, dict(function=fname, groups=len(groups), period=p, callees=names0),
+                      Finding(rule, '%s|%s|%s' % (rule, fname, first), groups[0][0].loc, fname,
+                              'periodic call groups starting with %s(): %s' % (first, '; '.join(probs[:3])), dict(reason=reason), label))
+        if not found:
+            raise AnalysisBroken('B8: the periodic group %s / %s was not found' % (fname, first))
     return rr
